@@ -4,7 +4,7 @@
 From Coq Require Import List NArith ZArith Bool Lia.
 From SK Require Import lib.LGraph lib.Reach lib.C01_GraphLemmas model.C01_Model model.C01_Opts model.C02_Model
                        proof.C02_Proof proof.C02_Opts proof.C02_OptsEquiv proof.C02_CtxEquiv proof.C02_LreEquiv
-                       proof.C02_Store proof.C02_StoreCtx proof.C02_StoreEquiv proof.C02_StoreNest.
+                       proof.C02_Lre proof.C02_Store proof.C02_StoreCtx proof.C02_StoreEquiv proof.C02_StoreNest.
 From SK Require Import proof.C01_OptsProof.
 From SK Require Import model.C02_Store.
 Import ListNotations.
@@ -412,4 +412,46 @@ Proof.
     + intros f Hinj. split; [apply (rcS_equivariant f Hinj); exact W|intros k; apply (ctxS_z_equivariant f Hinj); exact W].
     + split; [intros k Hk; exact (ctxS_spec g W k Hk)|].
       intros k k' Hk. destruct (ctxS_chain g W k k' Hk) as (C0 & C1 & C2 & _ & C4 & C5). auto.
+Qed.
+
+(** * theorems 9 / 10 for every label shape: what disconnected = True adds *)
+Theorem rcS_disconnected K m (g : sits) : wf g ->
+  let R := get_rc_S K true m g in
+  (forall n, In n (node_ids R) <->
+             In n (node_ids (get_rc_S K false m g)) \/ (exists a, label g n = Some a /\ cc_S a = true)) /\
+  (forall u v e, (exists y, adj R u v = Some y /\ fst y = e) <->
+                 (exists x, adj g u v = Some x /\ fst x = e) /\ In u (node_ids R) /\ In v (node_ids R)).
+Proof.
+  intros W R. destruct (rcx_disconnected K m (gmapn flat g) (wf_gmapn flat g W)) as [HN HA].
+  assert (forall d, node_ids (get_rc_x K d m (gmapn flat g)) = node_ids (get_rc_S K d m g)) as En
+    by (intros d; rewrite <- rcS_flat, node_ids_gmapn; reflexivity).
+  assert (forall u v, adj (get_rc_x K true m (gmapn flat g)) u v = adj (get_rc_S K true m g) u v) as Ea
+    by (intros u v; rewrite <- rcS_flat; reflexivity).
+  cbv zeta in HN, HA. rewrite ?(En true), ?(En false) in HN, HA. subst R. split.
+  - intros n. rewrite (HN n). split; (intros [L|(a & La & C)]; [left; first [rewrite <- (En false); exact L|rewrite (En false); exact L|exact L]|right]).
+    + rewrite label_gmapn in La. destruct (label g n) as [a0|]; [|discriminate]. simpl in La. injection La as <-. exists a0. auto.
+    + exists (flat a). split; [rewrite label_gmapn, La; reflexivity|exact C].
+  - intros u v e. rewrite <- Ea. exact (HA u v e).
+Qed.
+
+(** * the maximum-radius context of a graph of any label shape contains its extension path *)
+Lemma zchain_skel_walk {A} (g : lgraph A xedge) : forall ext n x, zchain (skel g) n ext -> In x ext ->
+  exists j, (1 <= j <= length ext)%nat /\ walk_g g n x j.
+Proof.
+  induction ext as [|v r IH]; intros n x Z I; [destruct I|]. simpl in Z. destruct Z as [Sd Z].
+  assert (adj g n v <> None) as Ad by (rewrite std0_skel in Sd; destruct (adj g n v); [discriminate|discriminate]).
+  destruct I as [<-|I].
+  - exists 1%nat. split; [simpl; lia|]. econstructor; [constructor|exact Ad].
+  - destruct (IH v x Z I) as (j & Hj & Wk). exists (Datatypes.S j). split; [simpl; lia|].
+    clear -Wk Ad. induction Wk as [s|s u y j Wk IHw A0]; [econstructor; [constructor|exact Ad]|]. econstructor; [apply IHw; exact Ad|exact A0].
+Qed.
+
+Theorem lre_path_in_context_S (g : sits) : wf g ->
+  forall x, In x (lre (skel g) (node_ids (get_rc_S K_default false false g))) -> In x (node_ids (extract_k_S_z g (-1))).
+Proof.
+  intros W x I. destruct (extract_k_S_z_minus1 g W) as (_ & HN & HP). apply HN. clear HN.
+  destruct HP as [E|(n & ext & In_ & E & Z & Nd)]; [rewrite E in I; destruct I|].
+  rewrite E in *. destruct I as [<-|I].
+  - exists n, O. repeat split; [exact In_|simpl; lia|constructor].
+  - destruct (zchain_skel_walk g ext n x Z I) as (j & Hj & Wk). exists n, j. repeat split; [exact In_|simpl; lia|exact Wk].
 Qed.
